@@ -22,6 +22,7 @@ for f in sorted(glob.glob(root + "/replays/C09/*.json")):
 cases.sort(key=lambda c: c["signature"])
 json.dump(cases, open(root + "/checks/c09/regress.json", "w"), separators=(",", ":"))
 FINDING_TEXT = {
+ "return-closes-throwing-iterator": "C09-4 return() whose iterator close throws leaves the VM unwound half-way: it.return(v) on a generator suspended inside a for-of loop (or array destructuring) that sits in a catch or finally block (a spent try frame lies above the loop), when the iterator's return() throws or returns a non-object: enterNextFinallyFrame raises the exception with vm.throw() outside any protected region, generatorObject._return never pops the frames pushed by enterNext(): the caller does not get the exception (Go nil-pointer panic out of the host call, or the call 'does not return' and the call/try stacks keep 2 frames; later calls fail), e.g. `function* g(){ try { throw 0 } catch (e) { for (var x of {[Symbol.iterator](){return this}, next(){return {done:false}}, return(){ return 7 }}) yield 1 } }; it = g(); it.next(); it.return(5)` must throw a TypeError to the caller. Fix: proposed-fixes/C09-return-iterator-close-throws.diff (apply after C09-return-stale-tryframe-after-iterator-close.diff)",
  "reentrant-delegate": "C09-1 re-entrancy during yield*: a next()/throw()/return() on a generator issued from inside the [Symbol.iterator]/next/throw/return method of the iterator it is delegating to with yield* is not rejected with a TypeError (generatorObject.state stays suspendedYield while the yield* loop runs): the call re-enters the delegate recursively until the call stack overflows, e.g. `function* g(){ yield* {[Symbol.iterator](){return this}, next(){ try { self.next() } catch (e) {} return {value:1,done:false} }} }; self = g(); self.next()`. Fix: proposed-fixes/C09-reentrancy-during-yield-star.diff",
  "register-locals": "C09-2 stack references not rebased on resume: inside `with`, an assignment / compound assignment / destructuring whose target is a register-allocated local and whose right-hand side suspends (yield, yield*, await) keeps a reference into vm.stack at an ABSOLUTE index (resolveMixedStack) in the saved refStack; vm.resume does not rebase it, so when the generator is resumed at another stack depth (always for async functions) the value lands in a foreign stack slot: the local keeps its old value, a later access throws ReferenceError/TypeError or the host panics with 'index out of range', e.g. `function* g(){ let a = 0; with ({}) { a = yield 1 } return a }; it = g(); it.next(); (function(){ var pad; return it.next(5) })()` returns {value:0,done:true}. Fix: proposed-fixes/C09-rebase-stack-references-on-resume.diff",
  "stack-capacity": "C09-3 stale *tryFrame after closing iterators: generator.enterNextFinallyFrame (gen.return) - and vm.handleThrow (gen.throw, reported by C08) - keep a pointer into vm.tryStack across vm.restoreStacks(), which closes the pending for-of/destructuring iterators and thereby pushes try frames; when that append re-allocates the try stack (depends on its current capacity: fresh runtime, call depth of the driver) the updates of the frame are lost: after it.return(v) the finally block runs and execution then continues AFTER the try statement ({value:...,done:false} or code after the loop runs) resp. the thrown exception is lost, e.g. on a fresh runtime `function* g(){ try { for (var x of [1,2]) yield x } finally {} log('after') }; it = g(); it.next(); (function(){ let z; try { return it.return(5) } finally { z++ } })()` logs 'after' and yields {value:undefined,done:true}. Fix: proposed-fixes/C09-return-stale-tryframe-after-iterator-close.diff (+ proposed-fixes/C08-stale-tryframe-after-iterator-close.diff for the throw path)",
